@@ -211,6 +211,18 @@ class AdjacentSwapper(ast.NodeTransformer):
         return node
 
 
+class WithMerger(ast.NodeTransformer):
+    """`with a: with b: body`  ->  `with a, b: body` (and `with a, b:` is what Python defines the nested form to mean)."""
+
+    def visit_With(self, node):
+        self.generic_visit(node)
+        while len(node.body) == 1 and isinstance(node.body[0], ast.With):
+            inner = node.body[0]
+            node.items = node.items + inner.items
+            node.body = inner.body
+        return node
+
+
 def rewrite(d, mode):
     for f in sorted(os.listdir(os.path.join(d, 'disk_objectstore'))):
         if not f.endswith('.py'):
@@ -234,6 +246,9 @@ def rewrite(d, mode):
             ast.fix_missing_locations(tree)
         elif mode == 'swapadj':
             tree = AdjacentSwapper().visit(tree)
+            ast.fix_missing_locations(tree)
+        elif mode == 'withmerge':
+            tree = WithMerger().visit(tree)
             ast.fix_missing_locations(tree)
         elif mode == 'flip':
             tree = Flipper().visit(tree)
